@@ -165,6 +165,7 @@ def check(col: Collector, tier: str):
     cv = [c for c in ast.walk(vsub.node) if isinstance(c, ast.Call) and call_name(c) == "cpp_value"]
     ok = len(cv) == 1 and src(kwarg(cv[0], "cpp_type")) == "v.get_element_type()" and "base_type_member_access(v)" in src(cv[0].args[0])
     col.add("C10.R4", vsub.short, "indexed-element-has-the-element-type", ok, "", vsub.loc)
+    check_default_vector_type(col, "C10.R4", repo)
     ge = repo.find_class("cpp_collection").methods["get_element_type"]
     col.add("C10.R4", "cpp_collection.get_element_type", "reads-element_type", ".element_type" in src(ge.node), "", ge.loc)
 
@@ -248,3 +249,24 @@ def check(col: Collector, tier: str):
     for o in sub.obs:
         if o.rule == "C03.R7":
             col.add("C10.R7", o.construct, o.detail, o.ok, o.msg, o.loc)
+
+
+def check_default_vector_type(col: Collector, rule: str, repo: Repo):
+    """collection(element) without an explicit array type is std::vector<FULL element type> - const and pointer stars included."""
+    ci = repo.find_class("collection").methods["__init__"]
+    pmc = parent_map(ci.node)
+    calls = [c for c in ast.walk(ci.node) if isinstance(c, ast.Call) and src(c.func) == "super().__init__" and c.args and isinstance(c.args[0], ast.JoinedStr)]
+    ok = len(calls) == 1
+    if ok:
+        sh = shape(parts(ci.node, calls[0].args[0]))
+        ok = sh == ["std::vector<", "{element_type}", ">"] and any(tr_ and src(t) == "array_type is None" for t, tr_ in guards(ci.node, calls[0], pmc))
+    col.add(rule, "collection.__init__", "default-array-type-is-vector-of-the-full-element-type", ok,
+            "without an explicit array type the collection must be std::vector<{element_type}> using the element's full text (const, pointer stars); "
+            "`.type` alone declares vector<T> for elements that are `const T*`", ci.loc)
+    ts = repo.find_class("terminal").methods["__str__"]
+    rets = [r for r in walk_no_nested(ts.node) if isinstance(r, ast.Return)]
+    ok = len(rets) == 1
+    if ok:
+        sh = shape(parts(ts.node, rets[0].value))
+        ok = len(sh) == 3 and sh[1] == "{self.type}" and "'*' * self._p_depth" in sh[2].replace('"', "'") and "const " in src(ts.node)
+    col.add(rule, "terminal.__str__", "type-text-carries-const-and-pointer-depth", ok, "str(terminal) must render [const ]<type><one * per pointer level>", ts.loc)
